@@ -80,8 +80,10 @@ def _members(b):
         if tf in (b"L", b"K", b"x"):
             recs.append((pos, pos + 512 + size, pos + ln))
         elif tf == b"g":
-            # a global header belongs to no member
+            # a global header is ignored by the reader and nothing has to follow it, but an archive that ends inside its header or
+            # payload is still a truncated archive: a member of its own whose data is the payload
             if not recs:
+                out.append((pos, [], pos, pos + 512 + size))
                 start = None
         else:
             if tf in (b"1", b"2", b"3", b"4", b"5", b"6"):
